@@ -203,7 +203,8 @@ def enum_unmerges(seed):
                 a = after.get(k)
                 owned = k in old_locs and k not in new_locs
                 if not owned:
-                    if a != b:
+                    # a directory's mtime legitimately moves when an entry inside it is removed: compare type, mode and owner for directories
+                    if (a[:4] != b[:4]) if (b[0] == "dir" and a is not None) else (a != b):
                         probs.append(f"{k} is not owned by the removed package ({'installed by the new package' if k in new_locs else 'unlisted'}) but changed: {b[:2]} -> {(a or ('gone',))[:2]}")
                 elif b[0] != "dir":
                     if a is not None:
